@@ -1,0 +1,600 @@
+//go:build verif
+// +build verif
+
+package producer
+
+// Verification hook (build tag `verif` only): drives the real RawSocket.setup + inputMsg against
+// real loopback sinks (unix, tcp, udp) that close / go down / come back at scripted message
+// indices, and checks what the sink received against what was handed over.
+//
+// Line protocol (see /verif/BUILDING.md, "runner"): case lines are read from $VERIF_IN, one
+// "<impl line>\t<verdict>" line per case is written to $VERIF_OUT.
+//
+//	producer <proto> <retry-max> <seed> <n> <events|->
+//
+// events: comma separated, each applied just before the message with that index is handed over
+// (after the previous message has been fully processed):
+//	c<k>  the sink closes the producer's current connection (listener stays up)
+//	r<k>  same, but with an RST (tcp only)
+//	d<k>  the sink closes the connection and stops listening
+//	u<k>  the sink listens again on the same address
+//
+// impl line: "ec=<MQErrorCount> recv=<runs>" where runs lists, per sink connection in accept
+// order, the maximal runs of consecutive message indices received, e.g. "c0[0-2] c1[4-9]";
+// for scripts whose outcome depends on kernel timing (faults on tcp/udp) the line is "nd".
+
+import (
+	"bufio"
+	"bytes"
+	"fmt"
+	"io/ioutil"
+	"log"
+	"math/rand"
+	"net"
+	"os"
+	"path/filepath"
+	"strconv"
+	"strings"
+	"sync"
+	"testing"
+	"time"
+)
+
+type verifChunkLog struct {
+	mu    sync.Mutex
+	conns [][]byte // stream sinks: octets per accepted connection; udp: one entry per datagram
+	open  int
+}
+
+type verifSink struct {
+	proto string
+	addr  string
+	ln    net.Listener
+	pc    net.PacketConn
+	cur   []net.Conn
+	rec   *verifChunkLog
+	wg    sync.WaitGroup
+	mu    sync.Mutex
+}
+
+func (s *verifSink) listen() error {
+	var err error
+	if s.proto == "udp" {
+		for try := 0; try < 50; try++ {
+			s.pc, err = net.ListenPacket("udp", s.addr)
+			if err == nil {
+				break
+			}
+			time.Sleep(2 * time.Millisecond)
+		}
+		if err != nil {
+			return err
+		}
+		if s.addr == "127.0.0.1:0" {
+			s.addr = s.pc.LocalAddr().String()
+		}
+		if uc, ok := s.pc.(*net.UDPConn); ok {
+			uc.SetReadBuffer(8 << 20)
+		}
+		pc := s.pc
+		s.wg.Add(1)
+		go func() {
+			defer s.wg.Done()
+			buf := make([]byte, 1<<17)
+			for {
+				n, _, err := pc.ReadFrom(buf)
+				if err != nil {
+					return
+				}
+				s.rec.mu.Lock()
+				s.rec.conns = append(s.rec.conns, append([]byte{}, buf[:n]...))
+				s.rec.mu.Unlock()
+			}
+		}()
+		return nil
+	}
+	for try := 0; try < 50; try++ {
+		s.ln, err = net.Listen(s.proto, s.addr)
+		if err == nil {
+			break
+		}
+		time.Sleep(2 * time.Millisecond)
+	}
+	if err != nil {
+		return err
+	}
+	if s.addr == "127.0.0.1:0" {
+		s.addr = s.ln.Addr().String()
+	}
+	ln := s.ln
+	s.wg.Add(1)
+	go func() {
+		defer s.wg.Done()
+		for {
+			c, err := ln.Accept()
+			if err != nil {
+				return
+			}
+			s.rec.mu.Lock()
+			id := len(s.rec.conns)
+			s.rec.conns = append(s.rec.conns, nil)
+			s.rec.open++
+			s.rec.mu.Unlock()
+			s.mu.Lock()
+			s.cur = append(s.cur, c)
+			s.mu.Unlock()
+			s.wg.Add(1)
+			go func() {
+				defer s.wg.Done()
+				buf := make([]byte, 1<<16)
+				for {
+					n, err := c.Read(buf)
+					if n > 0 {
+						s.rec.mu.Lock()
+						s.rec.conns[id] = append(s.rec.conns[id], buf[:n]...)
+						s.rec.mu.Unlock()
+					}
+					if err != nil {
+						s.rec.mu.Lock()
+						s.rec.open--
+						s.rec.mu.Unlock()
+						return
+					}
+				}
+			}()
+		}
+	}()
+	return nil
+}
+
+// closeConns closes every connection the sink has accepted so far
+func (s *verifSink) closeConns(rst bool) {
+	s.mu.Lock()
+	cs := s.cur
+	s.cur = nil
+	s.mu.Unlock()
+	for _, c := range cs {
+		if tc, ok := c.(*net.TCPConn); ok && rst {
+			tc.SetLinger(0)
+		}
+		c.Close()
+	}
+}
+
+func (s *verifSink) down() {
+	if s.proto == "udp" {
+		if s.pc != nil {
+			s.pc.Close()
+			s.pc = nil
+		}
+		return
+	}
+	if s.ln != nil {
+		s.ln.Close()
+		s.ln = nil
+	}
+	s.closeConns(false)
+}
+
+// acceptedAll: the sink has accepted every connection the producer has established (the first
+// dial plus every logged successful redial); always true for udp
+func (s *verifSink) acceptedAll(lbuf *verifLockedBuf) bool {
+	if s.proto == "udp" {
+		return true
+	}
+	want := 1 + lbuf.count("Successfully reconnected")
+	s.rec.mu.Lock()
+	defer s.rec.mu.Unlock()
+	return len(s.rec.conns) >= want
+}
+
+func (s *verifSink) received() int {
+	s.rec.mu.Lock()
+	defer s.rec.mu.Unlock()
+	n := 0
+	for _, c := range s.rec.conns {
+		n += len(c)
+	}
+	return n
+}
+
+type verifLockedBuf struct {
+	mu sync.Mutex
+	b  bytes.Buffer
+}
+
+func (l *verifLockedBuf) Write(p []byte) (int, error) {
+	l.mu.Lock()
+	defer l.mu.Unlock()
+	return l.b.Write(p)
+}
+
+func (l *verifLockedBuf) count(sub string) int {
+	l.mu.Lock()
+	defer l.mu.Unlock()
+	return strings.Count(l.b.String(), sub)
+}
+
+// verifMessages derives the handed-over messages from the seed: every message starts with its
+// index (so all are distinct), contains no newline, and is one of: plain JSON-like text, text with
+// printf verbs and stray '%', multi-kilobyte text, arbitrary binary octets.
+func verifMessages(seed int64, n int, maxLen int) [][]byte {
+	r := rand.New(rand.NewSource(seed))
+	verbs := []string{"%d", "%s", "%v", "%%", "%!x", "%5.2f", "%", "%+v", "%[2]d", "%*d", "100%", "%n", "%q"}
+	msgs := make([][]byte, n)
+	for k := 0; k < n; k++ {
+		var b bytes.Buffer
+		fmt.Fprintf(&b, `{"i":%d,"AgentID":"10.0.%d.%d","d":"`, k, r.Intn(256), r.Intn(256))
+		switch r.Intn(5) {
+		case 0:
+			for j, m := 0, r.Intn(40); j < m; j++ {
+				b.WriteByte(byte(32 + r.Intn(95)))
+			}
+		case 1:
+			for j, m := 0, 1+r.Intn(6); j < m; j++ {
+				b.WriteString(verbs[r.Intn(len(verbs))])
+				b.WriteByte(byte(97 + r.Intn(26)))
+			}
+		case 2:
+			ln := 2000 + r.Intn(40000)
+			if ln > maxLen {
+				ln = maxLen
+			}
+			for j := 0; j < ln; j++ {
+				b.WriteByte(byte(32 + r.Intn(95)))
+			}
+		case 3:
+			for j, m := 0, 1+r.Intn(300); j < m; j++ {
+				c := byte(r.Intn(256))
+				if c == '\n' {
+					c = 0
+				}
+				b.WriteByte(c)
+			}
+		default:
+			b.WriteString(`{"I":8,"V":"a%b"},{"I":12,"V":"100%"}`)
+		}
+		b.WriteString(`"}`)
+		msgs[k] = b.Bytes()
+	}
+	return msgs
+}
+
+type verifEvent struct {
+	kind byte
+	at   int
+}
+
+func verifParseEvents(s string) ([]verifEvent, error) {
+	if s == "-" || s == "" {
+		return nil, nil
+	}
+	var evs []verifEvent
+	for _, f := range strings.Split(s, ",") {
+		if len(f) < 2 || !strings.ContainsRune("crdu", rune(f[0])) {
+			return nil, fmt.Errorf("bad event %q", f)
+		}
+		k, err := strconv.Atoi(f[1:])
+		if err != nil {
+			return nil, err
+		}
+		evs = append(evs, verifEvent{f[0], k})
+	}
+	return evs, nil
+}
+
+func verifRuns(idx [][]int) string {
+	var parts []string
+	for c, l := range idx {
+		for i := 0; i < len(l); {
+			j := i
+			for j+1 < len(l) && l[j+1] == l[j]+1 {
+				j++
+			}
+			parts = append(parts, fmt.Sprintf("c%d[%d-%d]", c, l[i], l[j]))
+			i = j + 1
+		}
+	}
+	if len(parts) == 0 {
+		return "none"
+	}
+	return strings.Join(parts, " ")
+}
+
+func verifShort(b []byte) string {
+	if len(b) > 48 {
+		return fmt.Sprintf("%q…(%d octets)", b[:48], len(b))
+	}
+	return fmt.Sprintf("%q", b)
+}
+
+// verifRawSocketCase runs one case and returns (impl line, verdict)
+func verifRawSocketCase(dir string, caseNo int, line string) (string, string) {
+	f := strings.Fields(line)
+	if len(f) != 6 || f[0] != "producer" {
+		return "bad-op", "fail:bad case line"
+	}
+	proto := f[1]
+	retryMax, _ := strconv.Atoi(f[2])
+	seed, _ := strconv.ParseInt(f[3], 10, 64)
+	n, _ := strconv.Atoi(f[4])
+	events, err := verifParseEvents(f[5])
+	if err != nil {
+		return "bad-op", "fail:" + err.Error()
+	}
+	maxLen := 42000
+	if proto == "udp" {
+		maxLen = 8000
+	}
+	msgs := verifMessages(seed, n, maxLen)
+
+	sink := &verifSink{proto: proto, rec: &verifChunkLog{}}
+	switch proto {
+	case "unix":
+		sink.addr = filepath.Join(dir, fmt.Sprintf("s%d.sock", caseNo))
+	case "tcp", "udp":
+		sink.addr = "127.0.0.1:0"
+	default:
+		return "bad-op", "fail:bad protocol"
+	}
+	if err := sink.listen(); err != nil {
+		return "env", "fail:sink listen: " + err.Error()
+	}
+	up := true
+	defer func() {
+		sink.down()
+		sink.wg.Wait()
+	}()
+
+	cfg := filepath.Join(dir, fmt.Sprintf("raw%d.conf", caseNo))
+	ioutil.WriteFile(cfg, []byte(fmt.Sprintf("url: %q\nprotocol: %s\nretry-max: %d\n", sink.addr, proto, retryMax)), 0644)
+	lbuf := &verifLockedBuf{}
+	rs := new(RawSocket)
+	if err := rs.setup(cfg, log.New(lbuf, "", 0)); err != nil {
+		return "env", "fail:setup: " + err.Error()
+	}
+	var ec uint64
+	ch := make(chan []byte)
+	done := make(chan struct{})
+	go func() {
+		rs.inputMsg("vflow.test", ch, &ec)
+		close(done)
+	}()
+
+	// After handing over message k, wait until it has been fully processed: its octets arrived at
+	// the sink, or the producer logged that it gave the message up. Exact on unix sockets and on
+	// fault-free stretches; on tcp/udp a write that succeeds into a dead connection gives no
+	// signal, so there the wait is bounded by a quiet period.
+	const giveUpLine = "message failed after the configured retry limit"
+	awaitProcessed := func(got0, gu0, size int) {
+		deadline := time.Now().Add(2 * time.Second)
+		if proto != "unix" {
+			deadline = time.Now().Add(40 * time.Millisecond)
+		}
+		for time.Now().Before(deadline) {
+			if (sink.received() >= got0+size || lbuf.count(giveUpLine) > gu0) && sink.acceptedAll(lbuf) {
+				return
+			}
+			time.Sleep(50 * time.Microsecond)
+		}
+	}
+	perMessage := len(events) > 0 || proto == "udp"
+	lastFault := -1
+	for k := 0; k < n; k++ {
+		for _, e := range events {
+			if e.at != k {
+				continue
+			}
+			lastFault = k
+			switch e.kind {
+			case 'c':
+				sink.closeConns(false)
+			case 'r':
+				sink.closeConns(true)
+			case 'd':
+				sink.down()
+				up = false
+			case 'u':
+				if !up {
+					if err := sink.listen(); err != nil {
+						return "env", "fail:sink re-listen: " + err.Error()
+					}
+					up = true
+				}
+			}
+		}
+		got0, gu0 := 0, 0
+		if perMessage {
+			got0, gu0 = sink.received(), lbuf.count(giveUpLine)
+		}
+		m := append([]byte{}, msgs[k]...)
+		select {
+		case ch <- m:
+		case <-time.After(10 * time.Second):
+			return "fuel", fmt.Sprintf("fail:hang producer did not take message %d within 10s", k)
+		}
+		if perMessage {
+			awaitProcessed(got0, gu0, len(msgs[k])+1)
+		}
+	}
+	close(ch)
+	select {
+	case <-done:
+	case <-time.After(10 * time.Second):
+		return "fuel", "fail:hang inputMsg did not return within 10s after the channel was closed"
+	}
+	// everything written is read: stream sinks read to EOF after the producer's side is closed
+	if rs.connection != nil {
+		rs.connection.Close()
+	}
+	if proto == "udp" {
+		settleQuiet(sink, 30*time.Millisecond)
+	} else {
+		deadline := time.Now().Add(2 * time.Second)
+		for time.Now().Before(deadline) {
+			sink.rec.mu.Lock()
+			open := sink.rec.open
+			sink.rec.mu.Unlock()
+			if open == 0 && (sink.acceptedAll(lbuf) || !up) {
+				break
+			}
+			time.Sleep(100 * time.Microsecond)
+		}
+	}
+
+	// ---- oracle on what the sink received
+	sink.rec.mu.Lock()
+	conns := make([][]byte, len(sink.rec.conns))
+	for i, c := range sink.rec.conns {
+		conns[i] = append([]byte{}, c...)
+	}
+	sink.rec.mu.Unlock()
+	var lines [][]byte
+	var lineConn []int
+	if proto == "udp" {
+		for _, d := range conns {
+			if len(d) == 0 || d[len(d)-1] != '\n' || bytes.IndexByte(d[:len(d)-1], '\n') >= 0 {
+				return "corrupt", "fail:corrupt datagram is not one newline-terminated message: " + verifShort(d)
+			}
+			lines = append(lines, d[:len(d)-1])
+			lineConn = append(lineConn, 0)
+		}
+	} else {
+		for c, stream := range conns {
+			parts := bytes.Split(stream, []byte{'\n'})
+			for _, p := range parts[:len(parts)-1] { // the piece after the last newline is incomplete
+				lines = append(lines, p)
+				lineConn = append(lineConn, c)
+			}
+		}
+	}
+	nconn := len(conns)
+	if proto == "udp" {
+		nconn = 1
+	}
+	idx := make([][]int, nconn)
+	delivered := make([]bool, n)
+	p := 0
+	for li, l := range lines {
+		found := -1
+		for j := p; j < n; j++ {
+			if bytes.Equal(msgs[j], l) {
+				found = j
+				break
+			}
+		}
+		if found < 0 {
+			for j := 0; j < p; j++ {
+				if bytes.Equal(msgs[j], l) {
+					return "dup", fmt.Sprintf("fail:duplicate-or-reordered message %d received again/late as line %d", j, li)
+				}
+			}
+			want := ""
+			var k int
+			if _, err := fmt.Sscanf(string(l), `{"i":%d,`, &k); err == nil && k >= 0 && k < n {
+				want = fmt.Sprintf(" (handed over as message %d: %s)", k, verifShort(msgs[k]))
+			}
+			return "corrupt", fmt.Sprintf("fail:corrupt line %d is not a handed-over message: %s%s", li, verifShort(l), want)
+		}
+		delivered[found] = true
+		idx[lineConn[li]] = append(idx[lineConn[li]], found)
+		p = found + 1
+	}
+	ndel := 0
+	for _, d := range delivered {
+		if d {
+			ndel++
+		}
+	}
+	errs := int(ec)
+	impl := fmt.Sprintf("ec=%d recv=%s", errs, verifRuns(idx))
+	deterministic := proto == "unix" || len(events) == 0
+	if len(events) == 0 {
+		if ndel != n {
+			return impl, fmt.Sprintf("fail:lost no fault was injected but only %d of %d messages arrived", ndel, n)
+		}
+		if errs != 0 {
+			return impl, fmt.Sprintf("fail:errcount no fault but MQErrorCount=%d", errs)
+		}
+	}
+	// resumption: once the sink is up again and one message has passed, nothing later is missing
+	if up {
+		first := -1
+		for j := lastFault; j >= 0 && j < n; j++ {
+			if delivered[j] {
+				first = j
+				break
+			}
+		}
+		if lastFault < 0 {
+			first = 0
+		}
+		if first >= 0 {
+			for j := first; j < n; j++ {
+				if !delivered[j] {
+					return impl, fmt.Sprintf("fail:gap message %d missing although message %d had passed after the last fault (at %d)", j, first, lastFault)
+				}
+			}
+		} else if n-lastFault >= 6 {
+			return impl, fmt.Sprintf("fail:no-resumption sink is up since message %d but none of the %d later messages arrived", lastFault, n-lastFault)
+		}
+	}
+	// the error counter equals the failed writes the producer logged
+	logged := lbuf.count("retrying after error:") + lbuf.count("message failed after the configured retry limit:")
+	if logged != errs {
+		return impl, fmt.Sprintf("fail:errcount MQErrorCount=%d but %d failed writes were logged", errs, logged)
+	}
+	if !deterministic {
+		return "nd", "ok"
+	}
+	return impl, "ok"
+}
+
+func settleQuiet(s *verifSink, quiet time.Duration) {
+	last, since := s.received(), time.Now()
+	for time.Since(since) < quiet {
+		time.Sleep(200 * time.Microsecond)
+		if got := s.received(); got != last {
+			last, since = got, time.Now()
+		}
+	}
+}
+
+func TestVerifRawSocket(t *testing.T) {
+	in, out := os.Getenv("VERIF_IN"), os.Getenv("VERIF_OUT")
+	if in == "" || out == "" {
+		t.Skip("VERIF_IN / VERIF_OUT not set")
+	}
+	fi, err := os.Open(in)
+	if err != nil {
+		t.Fatal(err)
+	}
+	defer fi.Close()
+	fo, err := os.Create(out)
+	if err != nil {
+		t.Fatal(err)
+	}
+	defer fo.Close()
+	dir, err := ioutil.TempDir("", "vrs")
+	if err != nil {
+		t.Fatal(err)
+	}
+	defer os.RemoveAll(dir)
+	sc := bufio.NewScanner(fi)
+	sc.Buffer(make([]byte, 1<<20), 1<<26)
+	caseNo := 0
+	for sc.Scan() {
+		line := sc.Text()
+		if i := strings.IndexByte(line, '\t'); i >= 0 {
+			line = line[:i]
+		}
+		if line == "new" {
+			fmt.Fprintln(fo, "new\t")
+			continue
+		}
+		caseNo++
+		impl, verdict := verifRawSocketCase(dir, caseNo, line)
+		fmt.Fprintf(fo, "%s\t%s\n", impl, strings.ReplaceAll(verdict, "\n", " "))
+		fo.Sync()
+	}
+}
